@@ -48,6 +48,19 @@ pub fn roundtrip_ok(ast: &Value, pat: &str) -> bool {
     }
 }
 
+/// hash (31 bits) of the Debug rendering of the expression tree the real parser builds; -1 if it does not parse
+pub fn tree_hash(pat: &str) -> i64 {
+    use std::hash::{Hash, Hasher};
+    match catch_unwind(|| fancy_regex::Expr::parse_tree(pat)) {
+        Ok(Ok(tree)) => {
+            let mut h = std::collections::hash_map::DefaultHasher::new();
+            format!("{:?}", tree.expr).hash(&mut h);
+            (h.finish() & 0x7fff_ffff) as i64
+        }
+        _ => -1,
+    }
+}
+
 pub fn rows_for(re: &fancy_regex::Regex, texts: &[String]) -> Vec<Vec<i64>> {
     let mut rows = Vec::new();
     let mut errors = 0;
@@ -118,13 +131,30 @@ pub fn cmd_rows(o: &Opts) -> Result<(), String> {
                     let mut out = Vec::new();
                     for (i, a) in chunk {
                         let ast = &a["ast"];
-                        let pat = to_pattern(ast);
+                        // a record may carry its own spelling (C19): fragments to be concatenated, "@X" = Text token X as a raw character
+                        let pat = match a.get("toks").and_then(|t| t.as_array()) {
+                            Some(toks) => toks
+                                .iter()
+                                .map(|t| {
+                                    let t = t.as_str().expect("fragment");
+                                    match t.strip_prefix('@') {
+                                        Some(tok) if !tok.is_empty() => crate::tok::tok2char(tok).to_string(),
+                                        _ => t.to_string(),
+                                    }
+                                })
+                                .collect::<String>(),
+                            None => to_pattern(ast),
+                        };
                         let rt = roundtrip_ok(ast, &pat);
                         let mut rec = (*a).clone();
                         {
                             let m = rec.as_object_mut().expect("record object");
                             m.insert("pat".into(), json!(ascii(&pat)));
                             m.insert("rt".into(), json!(rt));
+                            if a.get("toks").is_some() {
+                                m.insert("tree".into(), json!(tree_hash(&pat)));
+                                m.insert("tree0".into(), json!(tree_hash(&to_pattern(ast))));
+                            }
                             match compile(&pat) {
                                 Ok(re) => {
                                     m.insert("st".into(), json!("ok"));
